@@ -32,7 +32,7 @@ import (
 
 // Behaviour says what the scripted server does with the n-th request it receives.
 type Behaviour struct {
-	Kind string `json:"k"` // normal | mutate | targeted | drop | dup | delay | frames | request | close-before | close-after | rst | silent | status | cseq | redirect
+	Kind string `json:"k"` // normal | mutate | targeted | drop | dup | delay | frames | request | close-before | close-after | rst | silent | flood | status | cseq | redirect
 	Arg  int    `json:"a,omitempty"`
 }
 
@@ -66,7 +66,7 @@ var clientSites = []string{"c.doClose.pre", "c.doClose.teardown", "c.doClose.rea
 const maxHold = 50 * time.Millisecond
 
 var kinds = []string{"normal", "normal", "normal", "mutate", "mutate", "targeted", "targeted", "targeted", "drop", "dup", "delay", "frames", "request",
-	"close-before", "close-after", "rst", "silent", "status", "cseq", "redirect"}
+	"close-before", "close-after", "rst", "silent", "flood", "status", "cseq", "redirect"}
 
 func gen(seed uint64, tier string) Scenario {
 	r := core.NewRand(seed, "c12")
@@ -425,6 +425,38 @@ func (fs *fakeServer) handle(nc net.Conn) {
 			select {
 			case <-fs.stop:
 			case <-time.After(10 * time.Minute):
+			}
+			return
+		case "flood":
+			// the request is never answered, but the connection is anything but silent: responses
+			// that answer nothing (foreign CSeq) and / or server requests keep arriving more often
+			// than ReadTimeout, for far longer than any bound on the call
+			period := ms(fs.sc.ReadMS) / time.Duration(2+b.Arg%3)
+			end := time.Now().Add(40*(ms(fs.sc.ReadMS)+ms(fs.sc.WriteMS)) + time.Minute)
+			for k := 0; time.Now().Before(end); k++ {
+				select {
+				case <-fs.stop:
+					return
+				case <-time.After(period):
+				}
+				var buf []byte
+				if (b.Arg/3)%3 != 1 {
+					r := &base.Response{StatusCode: base.StatusOK, Header: base.Header{"CSeq": base.HeaderValue{fmt.Sprint(900000 + k)}}}
+					x, _ := r.Marshal()
+					buf = append(buf, x...)
+				}
+				if (b.Arg/3)%3 != 0 {
+					ru := req.URL
+					if ru == nil {
+						ru, _ = base.ParseURL("rtsp://10.0.0.1:8554/stream")
+					}
+					r := &base.Request{Method: base.Options, URL: ru, Header: base.Header{"CSeq": base.HeaderValue{fmt.Sprint(k + 1)}}}
+					x, _ := r.Marshal()
+					buf = append(buf, x...)
+				}
+				if !sendRaw(buf) {
+					return
+				}
 			}
 			return
 		case "status":
